@@ -70,6 +70,35 @@ def run(tier, v, wd, replay=None):
                 out.write(line + "\n")
     os.remove(ffile + ".all")
     res = run_vectors(v, wd, repo, "./control/", "TestVerifC09FwdIdle", ffile, tags="verif,dae_stub_ebpf", timeout=1500, outname="out-fwd.json")
+    # code -> specification: random gated walks on the real cache (schedules not taken from the model), judged on the real
+    # forwarders and validated line by line against FwdIdle.tla (TraceFwdIdle.tla)
+    ftrace = os.path.join(vlib.spec_dir(wd), "fwdtrace.ndjson")
+    nviol = len(v.violations)
+    run_vectors(v, wd, repo, "./control/", "TestVerifC09FwdWalk", ffile, env={"VERIF_TRACE_OUT": ftrace, "VERIF_C09_WALKS": "300" if tier == "quick" else "3000"},
+                tags="verif,dae_stub_ebpf", timeout=1500, outname="out-fwdwalk.json")
+    if not os.path.exists(ftrace) or os.path.getsize(ftrace) == 0:
+        raise vlib.Infra("the forwarder-cache walks recorded no trace")
+    try:
+        r = vlib.tlc(wd, "TraceFwdIdle", "TraceFwdIdle.cfg", workers=1, timeout=1500)
+    except vlib.Infra as e:
+        if len(v.violations) > nviol:
+            v.drift.append("trace validation: the recorded walks are not accepted by FwdIdle.tla")
+            r = None
+        else:
+            raise vlib.Infra("trace validation: the recorded executions of the real forwarder cache are not accepted by FwdIdle.tla "
+                             "(the specification no longer describes the code's steps; no verdict):\n%s" % str(e)[-1500:])
+    if r is not None:
+        v.add_tlc(r)
+        if r.violated:
+            v.violation("fwdcache-trace:" + r.violated,
+                        "a recorded execution of the real forwarder cache (random gated walk) drives FwdIdle.tla into a state violating %s:\n%s" % (r.violated, "\n".join(r.trace[:40])),
+                        {"invariant": r.violated, "trace": r.trace[:200]})
+        elif "Postcondition" in r.out and "is false" in r.out:
+            if len(v.violations) > nviol:
+                v.drift.append("trace validation: the recorded walks are not accepted by FwdIdle.tla")
+            else:
+                raise vlib.Infra("trace validation: recorded executions not accepted by FwdIdle.tla (no verdict):\n%s" % r.out[-1500:])
+        v.coverage["fwd_trace_lines_validated"] = sum(1 for _ in open(ftrace))
     v.assumptions += ["forwarder cache: fake forwarders behind the dnsForwarderFactory seam hold every exchange until the history answers it; the janitor and the queries are parked at the verif yield points dnsfwd.evict.idle / dnsfwd.acquired; virtual time",
                       "packet path: real loopback UDP sockets; the point between patching and sending is the trace message sendPkt logs (a logging hook parks the goroutine there)",
                       "one upstream reached as-is; real DoUDP (udpConnPool) / DoTCP (pipelinedConn) forwarders over in-memory sockets and a scripted server; virtual time (testing/synctest)",
